@@ -700,13 +700,33 @@ func LeafOut(scalar string, enum *TypeDef, v Val) (out interface{}, class string
 				return t.UTC().Format(time.RFC3339Nano), "ok"
 			}
 			return nil, "bad"
-		case "int64", "float64":
-			return nil, "borderline" // seconds since epoch
+		case "int64":
+			// seconds since the epoch: the moment they name, or nothing RFC 3339 can write
+			i, _, _ := asInt(v)
+			if i < minTimeSecs || maxTimeSecs < i {
+				return nil, "bad"
+			}
+			return time.Unix(i, 0).UTC().Format(time.RFC3339Nano), "ok"
+		case "float64":
+			f, _ := asFloat(v)
+			if f != f || f < minTimeSecs || maxTimeSecs+1 <= f {
+				return nil, "bad" // not a number, or beyond what RFC 3339 can write
+			}
+			if f == math.Trunc(f) {
+				return time.Unix(int64(f), 0).UTC().Format(time.RFC3339Nano), "ok"
+			}
+			return nil, "borderline" // (how the fraction is rounded is the library's business)
 		}
 		return nil, "bad"
 	}
 	return nil, "borderline"
 }
+
+// seconds since the epoch of the first and the last second RFC 3339 can write (years 0 to 9999)
+const (
+	minTimeSecs = -62167219200
+	maxTimeSecs = 253402300799
+)
 
 var rfc3339 = regexp.MustCompile(`^\d{4}-\d{2}-\d{2}T\d{2}:\d{2}:\d{2}(\.\d+)?(Z|[+-]\d{2}:\d{2})$`)
 
